@@ -781,8 +781,8 @@ where
             Operator::make_bin(
                 "/",
                 BinOp {
-                    apply: |a, b| match b {
-                        Val::Int(x) if x == I::zero() => {
+                    apply: |a, b| match (&a, &b) {
+                        (Val::Int(_), Val::Int(x)) if *x == I::zero() => {
                             Val::Error(ExError::new("int division by zero"))
                         }
                         _ => div(a, b),
